@@ -161,6 +161,20 @@ def wrap_negative(value, bits):
     return bit_value
 
 
+def wrap_signed(value, bits):
+    """Two's complement bit pattern of a signed value.
+
+    Unlike wrap_negative this only accepts what a signed field of the given
+    width can hold, so that a pc-relative offset of +2**(bits-1) is rejected
+    instead of being encoded as -2**(bits-1).
+    """
+    if not inrange(value, bits):
+        raise ValueError(
+            f"Cannot encode {value} in a signed field of {bits} bits"
+        )
+    return value & ((1 << bits) - 1)
+
+
 def inrange(value, bits):
     """Test if a signed value can be fit into the given number of bits"""
     upper_limit = 1 << (bits - 1)
